@@ -145,7 +145,11 @@ pub fn gen_entry(r: &mut Rng, kind: &str, ctx: &mut Ctx, big: bool) -> Option<St
                 let k = match r.below(12) { 0 => 58, 1 => 59, 2 => if big { 60 } else { 3 }, _ => few(r).min(57) };
                 for _ in 0..k { o.push(format!("cache=#{}", r.below(ctx.caches))); }
             }
-            // interleave flags and caches
+            // direct writes of the public fields (flags, parent, processor id) in a third of the nodes
+            if r.below(3) == 0 {
+                for _ in 0..r.range(1, 3) { o.push(format!("set={}.{}", r.below(3), sc(r, 32))); }
+            }
+            // interleave flags, caches and field writes
             for i in (1..o.len()).rev() { let j = r.below(i as u64 + 1) as usize; o.swap(i, j); }
             let parent = if ctx.procs > 0 && r.coin() { format!("#{}", r.below(ctx.procs)) } else { "0".to_string() };
             ctx.procs += 1;
@@ -541,6 +545,7 @@ pub fn gen_ent(r: &mut Rng, tier: &str, emit: &mut dyn FnMut(String)) {
         ("gicc", "gicc/1/-/-/".into(), s(&["pi=23.0", "pi=24.1", "mi=25.0", "mi=26.1", "set=2.77"])),
         ("cache", "cache/-/-/-/".into(), s(&["size=1", "sets=2", "assoc=3", "alloc=1", "ctype=2", "wp=1", "line=64", "id=9"])),
         ("proc", "proc/0,7/-/-/".into(), s(&["physical", "valid", "thread", "leaf", "identical"])),
+        ("procw", "proc/0,7/-/-/".into(), s(&["physical", "leaf", "set=0.6", "set=0.0", "set=2.9", "set=1.48"])),
     ];
     for (_, prefix, names) in &families {
         for sub in subsets(names) {
